@@ -87,6 +87,7 @@ type Result struct {
 	Trace      []string               `json:"trace,omitempty"`
 	Leak       string                 `json:"leak,omitempty"`
 	Harness    string                 `json:"harness_error,omitempty"`
+	Exhausted  bool                   `json:"budget_exhausted,omitempty"`
 }
 
 func (r *Result) Class() string {
@@ -150,7 +151,10 @@ func RunOnce(t *testing.T, env *Env, p *Prop, seed, run uint64, vals []uint32, r
 			res.VTimeNs = int64(s.Now())
 			ctx.Net.CloseAll()
 			s.StopOnViolation = false
+			exh := s.Exhausted
+			s.MaxSteps += 100000
 			s.Run(nil, time.Hour)
+			s.Exhausted = exh
 			if lt := s.LiveTasks(); len(lt) > 0 {
 				res.Leak = "tasks still alive after teardown: " + strings.Join(lt, ",")
 			}
@@ -169,11 +173,7 @@ func RunOnce(t *testing.T, env *Env, p *Prop, seed, run uint64, vals []uint32, r
 		res.Nontrivial = ctx.Nontrivial
 		res.Strategy = s.StrategyName()
 		res.Trace = s.Trace
-		if tp.Over || s.Steps() >= s.MaxSteps {
-			if len(res.Violations) == 0 && res.Harness == "" {
-				res.Harness = "step/tape budget exhausted"
-			}
-		}
+		res.Exhausted = s.Exhausted
 	}
 	return res
 }
@@ -438,6 +438,9 @@ func Main(t *testing.T, env *Env, props map[string]*Prop) {
 		rep.Strategies[r.Strategy]++
 		if r.Reached {
 			rep.Reached++
+		}
+		if r.Exhausted {
+			rep.Counters["runs_step_budget_exhausted"]++
 		}
 		h := r.LogHash
 		if len(h) > 16 {
